@@ -7,9 +7,9 @@ Local Open Scope N_scope.
 (* exact (unbounded) sum of the voting power of a list of committee indices *)
 Definition power_of (cm : committee) (l : list nat) : N := fold_right (fun i acc => nth i (cm_power cm) 0 + acc) 0 l.
 Definition total_exact (cm : committee) : N := fold_right N.add 0 (cm_power cm).
-(* the committee record is what C13 derives: total = sum of powers (below 2^63, so nothing wraps), threshold = floor(2T/3)+1 *)
+(* the committee record is what C13 derives: total = sum of powers (below 2^64, so nothing wraps), threshold = floor(2T/3)+1 *)
 Definition committee_wf (cm : committee) : Prop :=
-  cm_total cm = total_exact cm /\ cm_total cm < 9223372036854775808 /\ cm_maj23 cm = 2 * cm_total cm / 3 + 1.
+  cm_total cm = total_exact cm /\ cm_total cm < two64 /\ cm_maj23 cm = 2 * cm_total cm / 3 + 1.
 
 Lemma view_eqb_eq a b : view_eqb a b = true <-> a = b.
 Proof.
@@ -126,7 +126,7 @@ Qed.
 Lemma signed_power_exact cm c : committee_wf cm -> signed_power cm c = power_of cm (signers cm c).
 Proof.
   intros (Ht & Hlt & _). unfold signed_power. pose proof (power_of_signers_le cm c) as Hle.
-  rewrite fold_add64_exact; [lia|]. unfold two64. lia.
+  rewrite fold_add64_exact; [lia|]. unfold two64 in *. lia.
 Qed.
 
 Lemma really_signed_aux cm sp l acc : (forall i, In i l -> (i < length (cm_power cm))%nat) ->
